@@ -376,3 +376,15 @@ Proof.
     rewrite forallb_forall in H5. specialize (H5 nd Hin). unfold parent_okb in *.
     rewrite remark_parent, remark_path. destruct (nd_parent nd) as [q|]; auto. apply guard_erase. exact H5.
 Qed.
+
+(* the per-field words of a lifted trace are exactly the bracket words [Wk]:
+   no freedom is left between middleware exits and resolver body *)
+Lemma lift_words_exact : forall k n aw ns text oc t, NoDup (map nd_path ns) ->
+  trace_spec (mkConfig 1 0 text oc aw ns) t ->
+  forall nd, In nd (nodes_of (mkConfig 1 0 text oc aw ns)) ->
+  filter (about (nd_path nd)) (flat_map (lift k n aw ns) t) = Wk k n aw nd.
+Proof.
+  intros k n aw ns text oc t Hnd [_ _ _ H4 _] nd Hin.
+  rewrite filter_about_lift. rewrite (c1_word aw ns text oc nd _ (H4 nd Hin)).
+  apply lift_word; auto. apply nodes_of_in in Hin. exact Hin.
+Qed.
